@@ -14,25 +14,26 @@ set_option linter.unusedVariables false
 /-- the label thread `t` can fire next (`fresh`: an unused thread id for `pthread_create`) -/
 def nextAct (s : State) (t : Tid) (fresh : Tid) : Act :=
   match s.pc t with
-  | .wLock | .sLock | .fLock => .lock
+  | .wLock | .sLock | .nLock | .fLock => .lock
   | .wLoop | .wBreakLen => .qlen s.tasks.length
   | .wWait | .fWait => .wait
   | .wWaiting | .fWaiting => .reacq
-  | .wBreakChk | .wInc | .wDec | .wExitDec | .sAssert | .sLazy0 | .fSetShut | .fAliveChk | .fJoinInit => .tau
+  | .wBreakChk | .wInc | .wDec | .wExitDec | .sShutChk | .sLazy0 | .nShutChk | .nLazy0 | .fSetShut | .fAliveChk | .fJoinInit => .tau
   | .wDequeue => .deq (s.tasks.headD 0)
-  | .wUnlock | .wExitUnlock | .sFailUnlock | .sUnlock | .fUnlock => .unlock
+  | .wUnlock | .wExitUnlock | .sFailUnlock | .sPermUnlock | .sUnlock | .nFailUnlock | .nPermUnlock | .nUnlock | .fUnlock => .unlock
   | .wCall => .taskStart (s.cur t) (s.task (s.cur t)).arg
   | .wInTask => .taskEnd (s.cur t)
   | .wExitBcast | .fBcast => .broadcast
   | .wRet => .exit
-  | .sLazy1 | .sLazy2 => .tlen s.threads.length
-  | .sCreate | .mNewCreate => .create fresh
-  | .sInsert | .mNewInsert => .tins (s.newTh t)
+  | .sLazy1 | .sLazy2 | .nLazy1 | .nLazy2 => .tlen s.threads.length
+  | .sCreate | .nCreate | .mNewCreate => .create fresh
+  | .sInsert | .nInsert | .mNewInsert => .tins (s.newTh t)
   | .sEnq => .enq (s.cur t)
-  | .sSignal => .signal s.waiters.head?
-  | .sRetOk => .addRet 0
-  | .sRetPerm => .addRet EPERM
-  | .sRetFail => .addRet EAGAIN
+  | .nEnq => .enq (s.addK t)
+  | .sSignal | .nSignal => .signal s.waiters.head?
+  | .sRetOk | .nRetOk => .addRet 0
+  | .sRetPerm | .nRetPerm => .addRet EPERM
+  | .sRetFail | .nRetFail => .addRet EAGAIN
   | .mNewRet => .newRet true
   | .mIdle => .freeCall true
   | .fJoin => match s.joinRest with
@@ -50,7 +51,7 @@ def nextAct (s : State) (t : Tid) (fresh : Tid) : Act :=
 def ready (s : State) (t : Tid) : Prop :=
   match s.pc t with
   | .none | .sIdle | .wDone | .mDone => False
-  | .wLock | .sLock | .fLock => s.lockOwner = none
+  | .wLock | .sLock | .nLock | .fLock => s.lockOwner = none
   | .wWaiting | .fWaiting => t ∉ s.waiters ∧ s.lockOwner = none
   | .wDequeue => s.tasks ≠ []
   | .mIdle => s.adding = []
@@ -64,13 +65,15 @@ theorem step_of_ready (t fresh : Tid) (hf : fresh ≠ 0 ∧ s.pc fresh = .none) 
       nextAct s t fresh ≠ .spurious ∧ ∀ k v, nextAct s t fresh ≠ .addCall k v := by
   by_cases h1 : s.pc t = .sSignal
   · cases hw : s.waiters <;> simp [step, nextAct, pre, h1, hw]
+  by_cases h1n : s.pc t = .nSignal
+  · cases hw : s.waiters <;> simp [step, nextAct, pre, h1n, hw]
   by_cases h2 : s.pc t = .fJoin
   · cases hj : s.joinRest <;> simp [ready, h2, hj] at hr <;> simp [step, nextAct, pre, h2, hj, hr]
   by_cases h3 : s.pc t = .fRet
   · cases hn : s.newFailed <;> simp [step, nextAct, pre, h3, hn]
   unfold ready at hr
   unfold step nextAct pre
-  cases hpc : s.pc t <;> simp [hpc] at hr h1 h2 h3 ⊢ <;> (try simp [hr, hf]) <;> (try (split <;> simp_all))
+  cases hpc : s.pc t <;> simp [hpc] at hr h1 h1n h2 h3 ⊢ <;> (try simp [hr, hf]) <;> (try (split <;> simp_all))
 
 
 /-- nothing is left to do: `free` has returned, every worker has returned, no `add` is in progress -/
